@@ -259,7 +259,7 @@ def _inv_obligations(I, spec_, fr, sf, kind, label, which='invariant'):
     extra = dict(fr.locals)
     for cl in spec_.get(which, []):
         goal = zbool(I.truth(I.spec_eval_in(sf, cl.ast, extra)))
-        I.callsite_obligations.append(('%s:%s:%s' % (kind, label, cl.label), goal, cl.expr, cl.props))
+        I.emit_obligation('%s:%s:%s' % (kind, label, cl.label), goal, cl.expr, cl.props)
 
 
 def _exhausted_or_element(I, s, it, sf, label):
